@@ -210,14 +210,24 @@ AdjointWith(pr, pre, gC, gT) ==
         tm(i) == [val |-> RSub(gT[i], RSum([col \in 1..D |-> RDot(Col(lam, col), Col(pre.dAC[i], col))])),
                   mag |-> RAdd(RAbs(gT[i]), RSum([col \in 1..D |-> RDot(Col(lamA, col), Col(pre.dACa[i], col))]))]
         tms == TLCEval([i \in 1..N |-> tm(i)])
+        \* natural scales (floors for S where the exact Jacobian is structurally zero but the result is assembled from
+        \* cancelling terms): a coefficient c_k has units position / time^k
+        Tmin == LET F[i \in 0..N] == IF i = 0 THEN pr.T[1] ELSE RMin(F[i - 1], pr.T[i]) IN F[N]
+        Tmax == RMaxSeq(pr.T)
+        kOf(r) == (r - 1) - ((r - 1) \div (2 * s)) * 2 * s
+        wC(col, e) == RSum([r \in 1..Len(gC) |-> RMul(RAbs(gC[r][col]), RPow(Tmin, -(kOf(r) + e)))])    \* sum |g| / Tmin^(k+e)
+        natP == TLCEval([col \in 1..D |-> wC(col, 0)])
+        natT == TLCEval(RSum([col \in 1..D |-> RMul(PScale(pr, col), wC(col, 1))]))
+        Phi == RPow("10", -6)
+        fl(S, nat) == RMax(S, RMul(Phi, nat))
     IN [points |-> [j \in 1..(N + 1) |-> [col \in 1..D |-> pt(lam, j, col)]],
-        pointsS |-> [j \in 1..(N + 1) |-> [col \in 1..D |-> pt(lamA, j, col)]],
+        pointsS |-> [j \in 1..(N + 1) |-> [col \in 1..D |-> fl(pt(lamA, j, col), natP[col])]],
         times |-> [i \in 1..N |-> tms[i].val],
-        timesS |-> [i \in 1..N |-> tms[i].mag],
+        timesS |-> [i \in 1..N |-> fl(tms[i].mag, RAdd(RAbs(gT[i]), natT))],
         bs |-> [d \in 1..(s - 1) |-> lam[RowBcS(s, N, d)]],
-        bsS |-> [d \in 1..(s - 1) |-> lamA[RowBcS(s, N, d)]],
+        bsS |-> [d \in 1..(s - 1) |-> [col \in 1..D |-> fl(lamA[RowBcS(s, N, d)][col], RMul(natP[col], RPow(Tmax, d)))]],
         be |-> [d \in 1..(s - 1) |-> lam[RowBcE(s, N, d)]],
-        beS |-> [d \in 1..(s - 1) |-> lamA[RowBcE(s, N, d)]]]
+        beS |-> [d \in 1..(s - 1) |-> [col \in 1..D |-> fl(lamA[RowBcE(s, N, d)][col], RMul(natP[col], RPow(Tmax, d)))]]]
 AdjointS(pr, C, gC, gT) == AdjointWith(pr, AdjointPre(pr), gC, gT)
 
 \* magnitudes the energy partials are assembled from (same formulas on absolute values)
